@@ -20,6 +20,19 @@ impl Mode {
     }
 }
 
+/// set by the driver: the tier of the current run
+pub static THOROUGH: std::sync::atomic::AtomicBool = std::sync::atomic::AtomicBool::new(false);
+
+/// Preemption bound of the schedule-exploration sections that accompany the non-E1 properties: every
+/// schedule with <= 2 preemptions in quick, <= 3 in thorough.
+pub fn side_bound() -> Mode {
+    if THOROUGH.load(std::sync::atomic::Ordering::SeqCst) {
+        Mode::Bounded(3)
+    } else {
+        Mode::Bounded(2)
+    }
+}
+
 pub type Checkfn<'a> = &'a mut dyn FnMut(&Execution) -> Vec<(String, String)>;
 pub type ProgCheckfn<'a> = &'a mut dyn FnMut(usize, &Execution) -> Vec<(String, String)>;
 
